@@ -16,7 +16,7 @@ from . import harness as h
 class Stage:
     def __init__(self, name, mc=None, emit=None, driver=None, trace=None, scn_filter=None, nontrivial=None,
                  extra_scenarios=None, mc_workers=h.NCPU, drive_env=None, selftest=True, post_traces=None,
-                 drive_shards=h.NCPU, max_per_shard=8000, simulate=None, deviations=None, sanity_events=(), pairing=None):
+                 drive_shards=h.NCPU, max_per_shard=8000, simulate=None, deviations=None, sanity_events=(), pairing=None, emit_kw=None, extra_emits=()):
         self.name = name
         self.mc = mc                    # (module, cfg) model-checked with the property invariants
         self.emit = emit                # (module, cfg) printing <<"SCN", json>>
@@ -33,6 +33,8 @@ class Stage:
         self.max_per_shard = max_per_shard
         self.simulate = simulate        # (module, cfg, 'num=..', depth) extra simulation run of the model
         self.deviations = deviations or {}   # deviation name -> trace cfg with that named deviation switched on
+        self.emit_kw = emit_kw or {}    # extra run_tlc arguments for the emission run (simulate=, depth=, seed=)
+        self.extra_emits = extra_emits  # further (module, cfg, kw) emission runs whose scenarios are added
         self.pairing = pairing          # (keyfn(scn) -> hashable, obsfn(trace) -> JSON-able): C11 pairing of the two halves
         self.sanity_events = set(sanity_events)  # events that cross-check the SPEC against Python itself (3.2)
 
@@ -105,7 +107,15 @@ def run_stage(stage, tier, seed, out, replay_scenarios=None):
     else:
         scns = []
         if stage.emit:
-            scns, r = h.emit(stage.emit[0], stage.emit[1])
+            scns, r = h.emit(stage.emit[0], stage.emit[1], **stage.emit_kw)
+            for mod, cfg, kw in stage.extra_emits:
+                kw = dict(kw)
+                if 'seed' in kw and kw['seed'] is None:
+                    kw['seed'] = seed
+                more, r2 = h.emit(mod, cfg, **kw)
+                out.transitions += r2.generated
+                out.notes.append('%s: TLC %s on %s/%s emitted %d scenarios' % (stage.name, kw.get('simulate', ''), mod, cfg, len(more)))
+                scns = scns + more
             scns = [s for s in scns if stage.scn_filter(s)]
             if not scns:
                 raise h.Machinery('stage %s: the model emitted no scenario (vacuous)' % stage.name)
